@@ -38,6 +38,15 @@ def _make(i: int, has_prepare: bool, has_start: bool) -> type:
         # odd slots inherit __init__/prepare()/start() from an intermediate base class
         base = type("Base" + name, (Component,), dict(ns, __qualname__="Base" + name))
         return type(name, (base,), {"__module__": __name__, "__qualname__": name})
+    if i % 6 == 4:
+        # these slots get their prepare()/start() attached *after* the class was created
+        # (class decorator, late mixin, patched in by a plug-in): whether a class implements
+        # a phase is a question for start-up time, not for class-creation time
+        hooks = {k: ns.pop(k) for k in ("prepare", "start") if k in ns}
+        cls = type(name, (Component,), ns)
+        for k, fn in hooks.items():
+            setattr(cls, k, fn)
+        return cls
     return type(name, (Component,), ns)
 
 
@@ -46,6 +55,12 @@ for _i in range(NSLOTS):
         for _s in (False, True):
             _c = _make(_i, _p, _s)
             globals()[_c.__name__] = _c
+
+
+# module attributes that a run re-binds to the class it wants before using the reference
+# "sim.worlds.compreg:REBOUND<k>" (a plug-in module being reloaded / replaced)
+REBOUND0: Any = None
+REBOUND1: Any = None
 
 
 class Decoy(Component):
